@@ -7,7 +7,7 @@ from typing import Dict, List, Optional, Set, Tuple
 from .ctx import Ctx
 from .model import AnalysisError, FunctionInfo
 from .report import RuleResult
-from .terms import (Attr, Call, Comp, Const, DictT, Ext, Fmt, Loop, Op, Opaque, Outcome, Store, Sub, Sym, Template, Term,
+from .terms import (Attr, Call, Comp, Const, DictT, Evaluator, Ext, Fmt, Ite, Loop, Op, helper_inline, Opaque, Outcome, Store, Sub, Sym, Template, Term,
                     TupleT, alternatives, guards_repr, norm_guards, walk)
 from .util import all_terms, call_name, call_recv, method_calls
 
@@ -62,7 +62,7 @@ def N2(ctx: Ctx) -> RuleResult:
         raise AnalysisError('N2', '_all_refs_same_type not found')
     self_t = Sym('self', c.name)
     table = Sym('table')
-    outs = ctx.ev.run(fi, {'self': self_t, 'table': table})
+    outs = Evaluator(ctx.model, inline=helper_inline(('hpl.ast.predicates',), exclude=('_all_refs_same_type',))).run(fi, {'self': self_t, 'table': table})
     outer = [e for o in outs for e in o.effects if isinstance(e, Loop)]
     if not outer:
         raise AnalysisError('N2', 'no loop over reference groups found')
@@ -126,66 +126,164 @@ def N3(ctx: Ctx) -> RuleResult:
     args = Sym('args')
     outs = ctx.ev.run(fi, {'self': self_t, 'args': args})
 
+    def is_args(a: Term) -> bool:
+        if a == args:
+            return True
+        if isinstance(a, Call) and isinstance(a.func, Ext) and a.func.name in ('tuple', 'list') and a.args == (args,):
+            return True
+        if isinstance(a, Ite):
+            return is_args(a.a) and is_args(a.b)
+        return False
+
     def is_len(t: Term, what: str) -> bool:
+        if what == 'params' and t == Attr(self_t, 'arity'):
+            return True
         if not (isinstance(t, Call) and isinstance(t.func, Ext) and t.func.name == 'len' and t.args):
             return False
         a = t.args[0]
         if what == 'params':
             return a == Attr(self_t, 'parameters')
-        return a == args or (isinstance(a, Call) and isinstance(a.func, Ext) and a.func.name in ('tuple', 'list') and a.args == (args,))
+        return is_args(a)
 
-    def arity_test(t: Term) -> Optional[str]:
-        """'few' if t means nparams > nargs, 'many' if nparams < nargs, 'ne' if nparams != nargs"""
-        if isinstance(t, Op) and len(t.args) == 2 and t.op in ('>', '<', '!=', '>=', '<=', '=='):
-            a, b = t.args
-            if is_len(a, 'params') and is_len(b, 'args'):
-                return {'>': 'few', '<': 'many', '!=': 'ne', '==': 'eq', '>=': 'few-or-eq', '<=': 'many-or-eq'}[t.op]
-            if is_len(a, 'args') and is_len(b, 'params'):
-                return {'<': 'few', '>': 'many', '!=': 'ne', '==': 'eq', '<=': 'few-or-eq', '>=': 'many-or-eq'}[t.op]
-        return None
+    variadic_flag = Op('is not', (Attr(self_t, 'variadic'), Const(None)))
 
-    few_unconditional = False
-    many_nonvariadic = False
-    for o in outs:
-        if not (o.kind == 'return' and o.value == Const(False)):
-            continue
-        gs = [(t, p) for t, p in norm_guards(o.guards) if not (isinstance(t, Call) and isinstance(t.func, Ext) and t.func.name == 'isinstance')]
-        pos = [(t, p) for t, p in gs]
-        # the decisive (last) guard
-        if not pos:
-            continue
-        t, p = pos[-1]
-        if arity_test(t) == 'few' and p and all(arity_test(x) is not None or True for x, _ in pos[:-1]) and len(pos) == 1:
-            few_unconditional = True
-        if isinstance(t, Op) and t.op == 'and' and p:
-            kinds = [arity_test(a) for a in t.args]
-            nonvar = any('variadic' in repr(a) for a in t.args)
-            if 'many' in kinds and nonvar:
-                many_nonvariadic = True
-            if ('ne' in kinds) and nonvar:
-                r.fail('FunctionSignature.accepts:arity', 'arity mismatch is rejected only for non-variadic overloads (nparams != nargs and not variadic): a variadic overload now accepts FEWER arguments than it has parameters (max(3) passes the (number, number, *number) overload)', fi.where)
-    if few_unconditional:
-        r.ok('fewer arguments than parameters: rejected unconditionally')
+    class Undecided(Exception):
+        pass
+
+    def value(t: Term, na: int, npar: int, var: bool):
+        """the arithmetic / boolean value of an arity term in the model (nargs, nparams, variadic); Undecided otherwise"""
+        if isinstance(t, Const) and isinstance(t.value, (int, bool)):
+            return t.value
+        if is_len(t, 'args'):
+            return na
+        if is_len(t, 'params'):
+            return npar
+        if t == variadic_flag or t == Attr(self_t, 'is_variadic'):
+            return var
+        if isinstance(t, Op) and t.op == 'is' and t.args == (Attr(self_t, 'variadic'), Const(None)):
+            return not var
+        if isinstance(t, Op):
+            if t.op == 'not' and len(t.args) == 1:
+                return not value(t.args[0], na, npar, var)
+            if t.op == 'and':
+                res = True
+                und = False
+                for x in t.args:
+                    try:
+                        if not value(x, na, npar, var):
+                            return False
+                    except Undecided:
+                        und = True
+                if und:
+                    raise Undecided()
+                return res
+            if t.op == 'or':
+                und = False
+                for x in t.args:
+                    try:
+                        if value(x, na, npar, var):
+                            return True
+                    except Undecided:
+                        und = True
+                if und:
+                    raise Undecided()
+                return False
+            if len(t.args) == 2 and t.op in ('<', '>', '<=', '>=', '==', '!=', '+', '-'):
+                x, y = value(t.args[0], na, npar, var), value(t.args[1], na, npar, var)
+                return {'<': x < y, '>': x > y, '<=': x <= y, '>=': x >= y, '==': x == y, '!=': x != y, '+': x + y, '-': x - y}[t.op]
+        if isinstance(t, Call) and isinstance(t.func, Ext) and t.func.name in ('min', 'max') and len(t.args) == 2:
+            return (min if t.func.name == 'min' else max)(value(t.args[0], na, npar, var), value(t.args[1], na, npar, var))
+        raise Undecided()
+
+    def mentions_arity(t: Term) -> bool:
+        return any(is_len(x, 'args') or is_len(x, 'params') for x in walk(t))
+
+    # decide the arity clauses over the finite model nargs, nparams in 0..3, variadic in {False, True}: the outcome of every
+    # path whose arity guards hold must be the constant False
+    bad_few: List[str] = []
+    bad_many: List[str] = []
+    bad_ne_var = False
+    n_models = 0
+    for na in range(4):
+        for npar in range(4):
+            for var in (False, True):
+                few = na < npar
+                many = na > npar and not var
+                if not (few or many):
+                    continue
+                n_models += 1
+                for o in outs:
+                    feasible = True
+                    for t, pol in o.guards:
+                        if isinstance(t, Op) and t.op == 'iterating':
+                            continue
+                        try:
+                            if bool(value(t, na, npar, var)) != pol:
+                                feasible = False
+                                break
+                        except Undecided:
+                            if mentions_arity(t) and not any(isinstance(x, Call) and call_name(x) == 'can_be' for x in walk(t)):
+                                raise AnalysisError('N3', f'FunctionSignature.accepts: cannot evaluate the arity guard {str(t)[:120]}')
+                    if not feasible:
+                        continue
+                    rejects = o.kind == 'return' and o.value == Const(False)
+                    # a loop that returns False early on some item still continues to the path's own outcome
+                    if not rejects:
+                        (bad_few if few else bad_many).append(f'nargs={na} nparams={npar} variadic={var}: [{guards_repr(o.guards)[:90]}] -> {o.kind} {str(o.value)[:50]}')
+                        if few and var:
+                            bad_ne_var = True
+    if not bad_few:
+        r.ok(f'fewer arguments than parameters: every path returns False ({n_models} arity models)')
+    elif bad_ne_var and all('variadic=True' in b for b in bad_few):
+        r.fail('FunctionSignature.accepts:arity', 'arity mismatch is rejected only for non-variadic overloads: a variadic overload now accepts FEWER arguments than it has parameters (max(3) passes the (number, number, *number) overload)', fi.where, found=bad_few[:3])
     else:
-        r.fail('FunctionSignature.accepts:too-few', 'no path rejects "fewer arguments than parameters" independently of the variadic flag', fi.where)
-    if many_nonvariadic:
-        r.ok('more arguments than parameters: rejected unless variadic')
+        r.fail('FunctionSignature.accepts:too-few', 'no path rejects "fewer arguments than parameters" independently of the variadic flag', fi.where, found=bad_few[:3])
+    if not bad_many:
+        r.ok('more arguments than parameters: every path returns False unless variadic')
     else:
-        r.fail('FunctionSignature.accepts:too-many', 'no path rejects "more arguments than parameters and not variadic"', fi.where)
+        r.fail('FunctionSignature.accepts:too-many', 'no path rejects "more arguments than parameters and not variadic"', fi.where, found=bad_many[:3])
+
     # per-argument tests
     pos_ok = var_ok = False
+
+    def iter_kinds(it: Term) -> Set[str]:
+        """what an iterable pairs the arguments with: 'params' (zip with the parameters), 'variadic'"""
+        kinds: Set[str] = set()
+        for x in walk(it):
+            if x == Attr(self_t, 'parameters'):
+                kinds.add('params')
+            if isinstance(x, Call) and isinstance(x.func, Ext) and x.func.name.endswith('repeat') and x.args and x.args[0] == Attr(self_t, 'variadic'):
+                kinds.add('variadic')
+        return kinds
+
+    def note_test(t: Term, it: Term):
+        nonlocal pos_ok, var_ok
+        if not (isinstance(t, Call) and call_name(t) == 'can_be' and t.args):
+            return
+        a = t.args[0]
+        if a == Attr(self_t, 'variadic'):
+            var_ok = True
+        elif isinstance(a, Sym) and a.name.startswith('each:') and 'zip' in repr(it):
+            ks = iter_kinds(it)
+            if 'params' in ks:
+                pos_ok = True
+            if 'variadic' in ks:
+                var_ok = True
     for o in outs:
         for e in o.effects:
             if not isinstance(e, Loop):
                 continue
             for rg, val in e.returns:
                 for t, p in norm_guards(rg):
-                    if isinstance(t, Call) and call_name(t) == 'can_be' and not p and val == Const(False):
-                        rc, a = call_recv(t), t.args[0]
-                        if isinstance(a, Sym) and a.name.startswith('each:') and 'zip' in repr(e.iter) and 'parameters' in repr(e.iter):
-                            pos_ok = True
-                        if a == Attr(self_t, 'variadic'):
-                            var_ok = True
+                    if not p and val == Const(False):
+                        note_test(t, e.iter)
+        if o.kind == 'return':
+            # return all(arg.can_be(param) for ...) [and all(...)]
+            for x in walk(o.value):
+                if isinstance(x, Call) and isinstance(x.func, Ext) and x.func.name == 'all' and x.args and isinstance(x.args[0], Comp) and len(x.args[0].gens) == 1:
+                    comp = x.args[0]
+                    if not comp.gens[0][2]:
+                        note_test(comp.elt, comp.gens[0][1])
     (r.ok('each positional argument: not can_be(parameter) -> reject') if pos_ok else r.fail('FunctionSignature.accepts:positional', 'positional arguments are not each tested with can_be against their parameter type', fi.where))
     (r.ok('each extra argument: not can_be(variadic) -> reject') if var_ok else r.fail('FunctionSignature.accepts:variadic', 'extra arguments are not each tested with can_be against the variadic type', fi.where))
     # check_arguments
@@ -193,8 +291,19 @@ def N3(ctx: Ctx) -> RuleResult:
     ca = fd.methods.get('check_arguments')
     outs = ctx.ev.run(ca, {'self': Sym('self', 'FunctionDefinition'), 'args': args})
     raises = [o for o in outs if o.kind == 'raise' and 'TypeError' in repr(o.value)]
-    accepts = any(isinstance(t, Call) and call_name(t) == 'accepts' for o in outs for t2, _ in o.guards for t in walk(t2))
-    if raises and accepts and all(not [g for g, p in o.guards if 'iterating' not in repr(g)] for o in raises):
+
+    def none_accepts(g) -> bool:
+        """the guard says: no overload accepts"""
+        t, pol = g
+        while isinstance(t, Op) and t.op == 'not' and len(t.args) == 1:
+            t, pol = t.args[0], not pol
+        if isinstance(t, Call) and isinstance(t.func, Ext) and t.func.name == 'any' and t.args and isinstance(t.args[0], Comp):
+            comp = t.args[0]
+            return (not pol) and isinstance(comp.elt, Call) and call_name(comp.elt) == 'accepts' and len(comp.gens) == 1 and not comp.gens[0][2] and comp.gens[0][1] == Attr(Sym('self', 'FunctionDefinition'), 'overloads')
+        return False
+    accepts = any(isinstance(t, Call) and call_name(t) == 'accepts' for o in outs for t2, _ in o.guards for t in walk(t2)) or \
+        any(isinstance(t, Call) and call_name(t) == 'accepts' for o in outs for e in o.effects for t in walk(e))
+    if raises and accepts and all(all('iterating' in repr(g) or none_accepts((g, p)) for g, p in o.guards) for o in raises):
         r.ok('check_arguments: TypeError when no overload accepts the argument types')
     else:
         r.fail('FunctionDefinition.check_arguments', 'does not raise TypeError exactly when no overload accepts', ca.where)
